@@ -285,6 +285,19 @@ def append (P : Str) (x y : SeqObj) : R SeqObj := do
 
 /-! ### programs (driver / theorems) -/
 
+/-- `l.reverse_strand().extract_sequence()` -/
+def revStrandExtract (P : Str) (alph : List Char) (l : Location) : R Str := do
+  let r ← reverseStrand l
+  extract P alph r
+
+/-- sequences of the two halves `relint(l, 0, k, +)` and `relint(l, k, len(l), +)` -/
+def splitExtract (P : Str) (alph : List Char) (l : Location) (k : Int) : R (Str × Str) := do
+  let m1 ← relInterval l 0 k .plus
+  let m2 ← relInterval l k (locLen l) .plus
+  let s1 ← extract P alph m1
+  let s2 ← extract P alph m2
+  pure (s1, s2)
+
 inductive Step where
   | sl (a b c : Option Int)
   | ix (i : Int)
